@@ -28,9 +28,9 @@ func atom(s string) *Term { return &Term{At: s} }
 
 func mk(op string, args ...*Term) *Term { return &Term{Op: op, A: args} }
 
-func (t *Term) withType(T types.Type) *Term { t.Typ = T; return t }
+func (t *Term) withType(T types.Type) *Term  { t.Typ = T; return t }
 func (t *Term) withObj(o types.Object) *Term { t.Obj = o; return t }
-func (t *Term) withPos(p token.Pos) *Term   { t.Pos = p; return t }
+func (t *Term) withPos(p token.Pos) *Term    { t.Pos = p; return t }
 
 func (t *Term) IsAtom() bool { return t != nil && t.Op == "" }
 
@@ -444,7 +444,9 @@ func (f Fact) String() string {
 
 func (f Fact) Not() Fact { return Fact{f.T, !f.Neg} }
 
-func (f Fact) Subst(m map[string]*Term) Fact { return normFact(Fact{boolSimplify(f.T.Subst(m)), f.Neg}) }
+func (f Fact) Subst(m map[string]*Term) Fact {
+	return normFact(Fact{boolSimplify(f.T.Subst(m)), f.Neg})
+}
 
 // SubstAll substitutes and re-decomposes (a substituted conjunction may split).
 func (f Fact) SubstAll(m map[string]*Term) []Fact {
@@ -557,7 +559,27 @@ func normFact(f Fact) Fact {
 		t = t.A[0]
 		f.Neg = !f.Neg
 	}
+	if (t.Op == "&&" || t.Op == "||") && len(t.A) == 2 {
+		t = mk(t.Op, normTerm(t.A[0]), normTerm(t.A[1]))
+	}
 	return Fact{t, f.Neg}
+}
+
+// normTerm normalises a boolean sub-term (the term form of normFact).
+func normTerm(t *Term) *Term {
+	f := normFact(Fact{T: t})
+	if f.Neg {
+		return mk("!", f.T)
+	}
+	return f.T
+}
+
+// conjuncts flattens a normalised conjunction into fact strings.
+func conjuncts(t *Term) []string {
+	if t.Op == "&&" && len(t.A) == 2 {
+		return append(conjuncts(t.A[0]), conjuncts(t.A[1])...)
+	}
+	return []string{t.String()}
 }
 
 func isConstTerm(t *Term) bool {
